@@ -106,6 +106,7 @@ build_pem(str *out, const char *bname, const char *ename, int bdash, int edash,
 typedef struct {
 	char name[130];
 	int term;               /* 0 none, BR_PEM_END_OBJ, BR_PEM_ERROR */
+	int skipped;            /* the caller did not want this object: no destination set (br_pem_decoder_setdest(pc, 0, 0)) */
 	str data;
 } robj;
 typedef struct {
@@ -116,6 +117,10 @@ typedef struct {
 	size_t outside;         /* data bytes delivered while no object is open */
 	int overflow;
 } prun;
+
+/* objects (by index, bit i) the caller skips in the next run_decoder(): "decoded data is simply ignored" when no
+   destination is set; what follows a skipped object must be untouched by it */
+static unsigned g_skip_mask;
 
 static void
 data_cb(void *ctx, const void *src, size_t len)
@@ -157,7 +162,8 @@ run_decoder(prun *r, const unsigned char *txt, size_t len, vf_rng *rng, int chun
 			if (r->n >= MAXOBJ) { r->overflow = 1; goto out; }
 			r->open = r->n ++;
 			snprintf(r->o[r->open].name, sizeof r->o[r->open].name, "%s", br_pem_decoder_name(pc));
-			br_pem_decoder_setdest(pc, data_cb, r);
+			if ((g_skip_mask >> r->open) & 1) { r->o[r->open].skipped = 1; br_pem_decoder_setdest(pc, 0, 0); }
+			else br_pem_decoder_setdest(pc, data_cb, r);
 			break;
 		case BR_PEM_END_OBJ:
 		case BR_PEM_ERROR:
@@ -242,6 +248,17 @@ judge(const xobj *x, int nx, const prun *r, const char *where, const char *cs,
 			snprintf(key, sizeof key, "C18:pem:name:%s", where);
 			vf_viol(key, "object name differs", "%s obj=%d got=%.130s want=%.130s", cs, i, o->name, x[i].name);
 			return;
+		}
+		if (o->skipped) {
+			/* nothing may have been delivered; the event that ends it is the one of the run with a destination */
+			if (o->data.n != 0) { vf_viol("C18:pem:data-for-skipped-object", "data delivered for an object without destination", "%s obj=%d got=%zu", cs, i, o->data.n); return; }
+			if ((x[i].kind == X_VALID && o->term != BR_PEM_END_OBJ) || (x[i].kind == X_ERROR && o->term != BR_PEM_ERROR)) {
+				vf_viol("C18:pem:skipped-object-event", "skipped object ended with another event than when it is decoded", "%s obj=%d term=%d kind=%d text=%s", cs, i, o->term, x[i].kind, th);
+				return;
+			}
+			vf_stat("cmp_pem_skipped_objects", 1);
+			prev_err = NULL;
+			continue;
 		}
 		if (x[i].kind == X_VALID || (x[i].kind == X_EITHER && o->term == BR_PEM_END_OBJ)) {
 			if (o->term != BR_PEM_END_OBJ) {
@@ -823,6 +840,16 @@ multi_case(long long idx)
 	if (idx < 2) vf_sample("{\"kind\":\"pem-multi\",\"objects\":%d,\"bad\":%d,\"reported\":%d,\"text_len\":%zu}", nobj, nbad, pr.n, t2.n);
 	judge(x, nobj, &pr, "multi", cs, t2.d, t2.n);
 	prun_free(&pr);
+	/* the same text with some objects skipped by the caller */
+	if (nobj >= 2) {
+		g_skip_mask = 1 + vf_below(&r, (1u << (nobj > 8 ? 8 : nobj)) - 1);
+		snprintf(cs, sizeof cs, "multi-skip seed=%lld idx=%lld objects=%d bad=%d style=%d chunk=%d skip=%x", g_seed, idx, nobj, nbad, style, chunk, g_skip_mask);
+		run_decoder(&pr, t2.d, t2.n, &r, chunk);
+		g_skip_mask = 0;
+		vf_stat("cmp_pem_multi_skip", 1);
+		judge(x, nobj, &pr, "multi-skip", cs, t2.d, t2.n);
+		prun_free(&pr);
+	}
 	for (i = 0; i < nobj; i ++) free(pls[i]);
 	str_free(&t); str_free(&t2);
 }
